@@ -136,6 +136,7 @@ func (wg *WaitGroup) Wait(ctx context.Context) {
 	go func() {
 		<-ctx.Done()
 		verifAt(ctx, "helper.gate", wg.cond)
+		defer with(lock(&wg.mu))
 		wg.cond.Broadcast()
 		verifAt(ctx, "helper.done", wg.cond)
 	}()
